@@ -563,7 +563,11 @@ func (x *Exec) BuildLogger(base zerolog.Logger, chain []Step, out *Rec, hookLog 
 			d1 := prev.Hook(decoyHook{})
 			d2 := prev.With().Str("DECOY", "ctx").Logger()
 			d3 := prev.Hook(decoyHook{}, decoyHook{})
-			_, _, _ = d1, d2, d3
+			// siblings that get built-in hooks through their Context: the far caller hook adds nothing where it
+			// belongs, the decoy timestamp hook would add a second / foreign time member
+			d4 := prev.With().CallerWithSkipFrameCount(100000).Logger()
+			d5 := prev.With().Caller().Logger()
+			_, _, _, _, _ = d1, d2, d3, d4, d5
 		}
 	}
 	return l
